@@ -23,6 +23,7 @@ import (
 	"mellium.im/xmpp/stanza"
 	"mellium.im/xmpp/verifharness/internal/ev"
 	"mellium.im/xmpp/verifharness/internal/wire"
+	"mellium.im/xmpp/verifharness/internal/xt"
 )
 
 func TestC10CloseAtServeEnd(t *testing.T) {
@@ -104,7 +105,7 @@ func TestC10ServeEndsWithErrorOffTheReadPath(t *testing.T) {
 	ev.Begin(t)
 	n := ev.N(30, 300)
 	for i := 0; i < n; i++ {
-		variant := []string{"deadline-while-handler-busy", "write-error-then-input-fails"}[i%2]
+		variant := []string{"deadline-while-handler-busy", "write-error-then-input-fails", "deadline-while-response-half-delivered"}[i%3]
 		sv, err := wire.NewServed(wire.SessionOpts{})
 		if err != nil {
 			t.Fatalf("harness: %v", err)
@@ -129,6 +130,63 @@ func TestC10ServeEndsWithErrorOffTheReadPath(t *testing.T) {
 				t.Fatalf("harness: SetCloseDeadline: %v", err)
 			}
 			sv.Feed(`<message xmlns="jabber:client" id="m1"/><message xmlns="jabber:client" id="m2"/>`)
+		case "deadline-while-response-half-delivered":
+			// a request helper is reading the answer to its request, of which the
+			// peer has only delivered the beginning, when the close deadline
+			// passes: the helper sees the timeout and gives up; Serve must end
+			sv.Start(nil)
+			reqDone := make(chan struct{})
+			go func() {
+				defer close(reqDone)
+				_ = ev.Guard(func() {
+					it, _, err := sv.Session.IterIQElement(context.Background(), xt.El("urn:verif:c10", "query", nil).Reader(), stanza.IQ{ID: "half1", Type: stanza.GetIQ})
+					if err != nil {
+						return
+					}
+					for it.Next() {
+						start, r := it.Current()
+						_ = start
+						if r != nil {
+							for {
+								if _, err := r.Token(); err != nil {
+									break
+								}
+							}
+						}
+					}
+					_ = it.Close()
+				})
+			}()
+			if !sv.WaitFor(func(els []*xt.Node) bool {
+				for _, e := range els {
+					if id, _ := e.Get("id"); id == "half1" {
+						return true
+					}
+				}
+				return false
+			}, 5*time.Second) {
+				t.Fatalf("harness: the request never reached the wire")
+			}
+			half := `<iq xmlns="jabber:client" type="result" id="half1"><query xmlns="urn:verif:c10"><item n="1"/>`
+			if i%2 == 0 {
+				half += `<item n="2"><sub`
+			}
+			sv.Feed(half)
+			time.Sleep(time.Duration(i%3) * time.Millisecond)
+			t0 = time.Now()
+			if err := sv.Session.SetCloseDeadline(t0.Add(d)); err != nil {
+				t.Fatalf("harness: SetCloseDeadline: %v", err)
+			}
+			if i%4 < 2 {
+				go sv.Session.Close()
+			}
+			select {
+			case <-reqDone:
+			case <-time.After(waitLong):
+				buf := make([]byte, 1<<18)
+				buf = buf[:runtime.Stack(buf, true)]
+				ev.Failf(t, "iteration %d (%s): the request helper had not returned %v after the close deadline passed\n%s", i, variant, waitLong, buf)
+			}
 		default:
 			sv.Start(nil)
 			failing := true
